@@ -722,6 +722,8 @@ class Interp:
             other = b if isinstance(a, PyObj) else a
             if type(a if isinstance(a, PyObj) else b).__name__ == "ExcValue" and isinstance(other, V) and other.ty == TNone:
                 return z3.BoolVal(False)  # an exception object is not None
+            if isinstance(other, V) and other.ty == TNone and not (isinstance(a, PyObj) and isinstance(b, PyObj)):
+                return z3.BoolVal(False)  # a function / bound method / class / module object is not None
             raise Unsupported("`is` on python objects")
         if a.ty == TNone or b.ty == TNone:
             return sym.equal(a, b)
